@@ -110,6 +110,9 @@ static void thread_fn(void* p) {
             if (len > 0) a0 = &*it;
         } catch (Boom&) { threw = true; } catch (std::bad_alloc&) { threw = true; } catch (std::exception&) { threw = true; }
         (void)size_before;
+        // TSO runs: the harness publishes "this call has returned" through plain memory, which the store-buffer model does not delay, while the
+        // library's release stores of this call may still sit in the thread's buffer; real TSO keeps the two in order, so drain first
+        if (vs_tso_on) std::atomic_thread_fence(std::memory_order_seq_cst);
         Call& r = C[idx]; r.resp = vs_now(); r.start = start; r.len = len; r.ok = ok; r.threw = threw; r.addr0 = a0; n_inflight--;
         if (threw) { n_threw++; g_faulted = true; }
         if (ok && !g_fault_fired && (c == 'A' || c == 'B')) {
@@ -198,11 +201,9 @@ void h_run(Case& c) {
     }
     g_ops.resize(g_nt); C.reserve(128); g_witness = kvl(c.lines[0], "witness", 0) != 0;
     vs_begin(c.sched.c_str());
-    // known finding C11-fault-orphans-segments: after a constructor/allocation threw in one growth call, a concurrent growth call
-    // of another thread that needs a segment the failed call was responsible for waits for ever.  Excluded (counted) unless witness=1.
-    auto hang = [](const char* d) { if (g_fault_fired && !g_witness) {   // (also after a failed segment-TABLE allocation the unchanged tree leaves later calls waiting: same family)
-        vs_stat_add("n_excluded", 1); vs_stat_flag("excluded_hang_after_fault"); vs_stat_add("nt", 0); vs_ok(); }
-                                    vs_violation(g_fault_fired ? "HANG-AFTER-FAULT" : "GROW-HANG", "%s", d); };
+    // a growth call that never returns: after an injected fault the other calls must still return or throw (the former known finding
+    // C11-fault-orphans-segments was repaired in /repo; nothing is excluded any more)
+    auto hang = [](const char* d) { vs_violation(g_fault_fired ? "HANG-AFTER-FAULT" : "GROW-HANG", "%s", d); };
     vs_on_fixpoint(hang); vs_on_deadlock(hang);
     V = new Vec;
     if (reserve) V->reserve((size_t)reserve);
